@@ -116,6 +116,9 @@ type Interp struct {
 	unknownFeas  int
 	specDepth    int
 	specRoot     *ssa.BasicBlock
+	parRuns      []parRun
+	randReplay   []Nondet
+	randPos      int
 	model        Model
 	evalSkips    int
 	merges       int
@@ -299,6 +302,23 @@ func (in *Interp) concretize(t *Term, what string) int64 {
 func (in *Interp) newNondet(kind, label string, s Sort) *Term {
 	if in.specDepth > 0 {
 		panic(specAbort{"nondet"})
+	}
+	if in.randReplay != nil && strings.HasPrefix(kind, "rand.") {
+		// second run of a self-composition: the same seeded stream is consumed again
+		for in.randPos < len(in.randReplay) && !strings.HasPrefix(in.randReplay[in.randPos].Kind, "rand.") {
+			in.randPos++
+		}
+		if in.randPos >= len(in.randReplay) {
+			// the second run draws more values than the first: continue with fresh ones
+			in.randReplay = nil
+		} else {
+			n := in.randReplay[in.randPos]
+			in.randPos++
+			if n.Kind != kind {
+				panic(pathEnd{endAssume, "self-composition: the two runs consume the random stream differently (" + n.Kind + " vs " + kind + ")"})
+			}
+			return n.T
+		}
 	}
 	name := fmt.Sprintf("%s#%d", label, len(in.nondets))
 	t := in.tb.Var(name, s)
